@@ -179,7 +179,7 @@ async fn edge_timeouts(client: &Client, raw: &quinn::Connection, log: &EvLog, to
             };
             log.emit("edge_timeout", json!({"timeout_us": us, "res": res, "ms": t0.elapsed().as_millis() as u64}));
         }
-        let _ = r.request("edge-original-handle".to_string()).await;
+        let _ = tokio::spawn(async move { r.request("edge-original-handle".to_string()).await }).await;
     }
     // drain what the replier was sent, answer nothing; then an ordinary exchange
     let mut ordinary = client
